@@ -21,6 +21,11 @@ def ops(rng, tier, floats_only=False):
         for p in ("N", "0", "24", "255"):
             for i in (0, 24):
                 out.append(f"dextra BoxMid {p} {i}")
+        # a type alias of Option<u8> (nil-able by trait, not by spelling) behind decode_with only / encode_with only / no codec
+        for t in ("DecOnlyA", "DecOnlyM", "EncOnlyA", "AliasA"):
+            for i in (0, 24):
+                for p in ("N", "0", "23", "24", "255"):
+                    out.append(f"dextra {t} {i} {p}")
         for m in (0, 1, 23, 24, 255, 256):
             b = bytes((i * 7 + 0x18) & 0xff for i in range(m))
             out.append(f"dextra CowA {gen.hexb(b)} {m % 256}")
